@@ -329,7 +329,16 @@ def c11(tier):
             continue
         ok, why = partition_ok(v["segs"], v["nbytes"])
         if not ok:
-            sig = "c11.eof-drops-accumulated-text" if "dropped at EOF" in why else "c11.unaccounted-text:" + c["id"]
+            if "dropped at EOF" in why:
+                # was the pending text accumulated by action-less fragments (try-again results), or merely consumed?
+                k = len(r["steps"]) - 1
+                accum = False
+                while k >= 0 and r["steps"][k][1] in (0, 3, 4):
+                    accum = accum or r["steps"][k][1] == 3
+                    k -= 1
+                sig = "c11.eof-drops-accumulated-text" if accum else "c11.eof-in-start-state-drops-consumed-text"
+            else:
+                sig = "c11.unaccounted-text:" + c["id"]
             rep.failure(sig, "spec %s input %r: %s" % (c["id"], show_input(r["chars"]), why), lreplay(c, r, {"segments": v["segs"]}))
     if ndrift:
         rep.note("DRIFT: %d of %d runs are not LexerRT behaviours; accounting not evaluated on them" % (ndrift, len(full)))
